@@ -118,6 +118,8 @@ pub fn compiler_outputs(ctx: &mut Ctx, which: Which, syn_n: usize, sem_n: usize)
         if ctx.take().is_none() { continue }
         if let Ok(src) = std::fs::read_to_string(&p) { compiled_case(ctx, which, "CORPUS", &src) }
     }
+    ctx.stage("compiler outputs: U-SCALE");
+    for (_name, prog) in super::super::universes::scale::programs(!ctx.quick()) { if ctx.take().is_some() { compiled_case(ctx, which, "U-SCALE", &show(&prog)) } }
     ctx.stage("compiler outputs: U-PAIR(d=2)");
     let ts = pair::templates(); let fs = pair::fillers();
     for t in &ts { for f in &fs {
